@@ -12,7 +12,12 @@ func verifC16TreeSort() {
 	top := &token{Text: "_"}
 	for i := 0; i < n; i++ {
 		k := kinds[verifChoice(fmt.Sprintf("kind%d", i), len(kinds))]
-		top.Append(&token{Symbol: k, Text: fmt.Sprintf("%d", i)})
+		t := &token{Symbol: k, Text: fmt.Sprintf("%d", i)}
+		// positions as they look after joinFiles: offsets restart in every file, so they do not grow with the index
+		t.Pos.Filename = fmt.Sprintf("f%d.go", i/2)
+		t.Pos.Offset = (n - i) * 7 % 11
+		t.Pos.Line = 1 + (n-i)%3
+		top.Append(t)
 	}
 	before := append([]*token(nil), top.Tokens...)
 	out := treeSort(top)
